@@ -93,6 +93,9 @@ def _is_subseq(sub, full):
 
 def run_case(case, ctx):
     L, mon = ctx["L"], ctx["mon"]
+    miss = ctx["mon"].need("_match_regex", "_preprocess_string")
+    if miss:
+        return miss
     mon.track_prov = True
     ts = C.parse_ts(case["ts"])
     tags = [x for k, x in case["items"] if k == "h"]
